@@ -33,7 +33,7 @@ Variants(tpl, d) == IF Holes(tpl) = {} THEN {Variant(tpl, d, 0)} ELSE {Variant(t
 T(s) == <<"t", s>>
 H(n) == <<"h", n>>
 
-Leaves1 == {<<T("x")>>, <<T("1")>>, <<T("0")>>, <<T("-"), T("3")>>, <<T("f"), T("("), T("x"), T(")")>>}
+Leaves1 == {<<T("x")>>, <<T("1")>>, <<T("0")>>, <<T("-"), T("3")>>, <<T("f"), T("("), T("x"), T(")")>>, <<T("c"), T("("), T(")")>>}
 Leaves2 == Leaves1 \cup {<<T("A")>>, <<T("new"), T("{"), T("d"), T("=>"), T("1"), T(","), T("e"), T("("), T("y"), T(")"), T("=>"), T("y"), T("}")>>}
 
 Term1Tpl == {<<T("("), H("Term"), T(")")>>,
